@@ -48,9 +48,11 @@ def index_lists(rng, D, tier):
     for k in range(1, D + 1):
         combos = list(itertools.combinations(range(D), k))
         if D > 3 and tier == "quick":
-            combos = [combos[i] for i in rng.permutation(len(combos))[:3]]
+            combos = [combos[i] for i in rng.permutation(len(combos))[:6]]
         for c in combos:
             lists.append(list(rng.permutation(c)))
+            if k >= 3:  # orders of three or more coordinates: a second, different order
+                lists.append(list(rng.permutation(c)))
     return lists
 
 
@@ -75,6 +77,16 @@ def run_cell(cell, rec, seed):
                 ph = p
             if ph is None:
                 continue
+            if rng.random() < 0.25:
+                # a caller that keeps its index list in a NumPy buffer and reuses the buffer
+                # afterwards: the judged call below must not see what became of that buffer
+                buf = np.array(dims, dtype=np.int64)
+                try:
+                    ph.get_marginal(buf)
+                    buf[:] = (buf + 1) % D if len(buf) == 1 else np.roll(buf, 1)
+                    inf = dict(inf, index_buffer_reused=True)
+                except Exception:
+                    rec.count("numpy_index_unsupported")
             m = _call(rec, "get_marginal", lambda: ph.get_marginal(JI(dims)), inf)
             rec.cell(["marginal", diag, R, D, dims.tolist()], D > 1)
             if m is None:
